@@ -182,3 +182,25 @@ def _pattern_search(run, obj, args, kwargs, node):
 
 
 REG.stub(("method", "Pattern", "search"), _pattern_search)
+
+
+def _re_sub(run, args, kwargs, node):
+    """re.sub(pattern, repl, s) for a CONSTANT pattern that is one negated character class and a literal replacement:
+    every character outside the class is replaced, so the result consists of class characters and the replacement."""
+    from pyvc.regex2smt import class_intervals, _intervals_to_re, sre_parse, sre_c
+    pat, repl = z3.simplify(run.coerce(args[0], TStr).t), z3.simplify(run.coerce(args[1], TStr).t)
+    s = run.coerce(args[2], TStr).t
+    if not (z3.is_string_value(pat) and z3.is_string_value(repl)) or len(args) > 3 or kwargs:
+        raise EngineError("re.sub with a non-constant pattern / replacement / flags is not modelled")
+    parsed = list(sre_parse.parse(pat.as_string()))
+    if len(parsed) != 1 or parsed[0][0] is not sre_c.IN or parsed[0][1][0][0] is not sre_c.NEGATE:
+        raise EngineError(f"re.sub pattern {pat.as_string()!r} is not a single negated character class")
+    keep = class_intervals(parsed[0][1][1:], 0, False)       # the characters that are NOT replaced
+    import hashlib
+    r = ops.uf("re_sub_" + hashlib.md5((pat.as_string() + "|" + repl.as_string()).encode()).hexdigest()[:8], _S, _S)(s)
+    run.assume(z3.InRe(r, z3.Star(z3.Union(_intervals_to_re(keep), z3.Re(repl)))))
+    run.assume(z3.Length(r) >= 0)
+    return Val(TStr, r)
+
+
+REG.stub("re.sub", _re_sub)
